@@ -342,6 +342,12 @@ impl NodeInner {
                     1 => oracle::frame(SpecHeader { version: 2, body_format: 2, ..base }, q, b"{\"v\":2}"),
                     // a valid JSON-typed reply whose body is not JSON
                     2 => oracle::frame(SpecHeader { body_format: 2, ..base }, q, b"{not json"),
+                    // a consistent header declaring a 2^62-byte body (nothing can follow): the client must refuse to allocate it
+                    3 => SpecHeader { body_format: 2, query_length: q.len() as u64, body_length: 1 << 62, length: 48 + q.len() as u64 + (1 << 62), ..base }.encode().iter().copied().chain(q.iter().copied()).collect(),
+                    // a header whose total length disagrees with its parts
+                    4 => SpecHeader { body_format: 2, query_length: q.len() as u64, body_length: 7, length: 48 + q.len() as u64 + 8, ..base }.encode().iter().copied().chain(q.iter().copied()).chain(*b"1234567").collect(),
+                    // a consistent header declaring a query of 2^63 bytes
+                    5 => SpecHeader { body_format: 2, query_length: 1 << 63, body_length: 0, length: 48 + (1u64 << 63), ..base }.encode().to_vec(),
                     // 48 bytes that are not a REPE header (bad magic)
                     _ => SpecHeader { spec: 0xDEAD, length: 48, ..base }.encode().to_vec(),
                 };
@@ -1020,7 +1026,9 @@ fn evaluate(run: &CaseRun, strict: bool) -> Verdict {
             } else if c.err.is_some() {
                 cand(&mut v, late, format!("C19:retry-after-reply:{kind}:app-error"), &format!("call {ci}: another attempt was made although the node had answered attempt #{} with an application error", run.attempts[w[0]].lib_idx));
             } else if c.garbage {
+                // the node DID answer (with bytes that are not a usable reply): that is not a transport-level failure
                 stat(&mut v, "malformed_reply_then_retried");
+                cand(&mut v, late, format!("C19:retry-after-reply:{kind}:malformed"), &format!("call {ci}: another attempt was made although the node had answered attempt #{} (with a malformed reply, malformed_kind {}); retries are for transport-level failures only", run.attempts[w[0]].lib_idx, run.spec.malformed_kind));
             }
             stat(&mut v, format!("retried_after:{}", c.name()));
         }
@@ -1178,7 +1186,7 @@ fn build_cases(args: &Args) -> (Vec<CaseSpec>, Value) {
         let script: Vec<Out> = (0..len).map(|_| *rng.pick(&ALPHA)).collect();
         let kind = if rng.coin() { Kind::Sync } else { Kind::Async };
         let api = *rng.pick(&[Api::JsonNoParams, Api::Message, Api::Json]);
-        let malformed_kind = if api == Api::Json { 1 + rng.below(2) as u8 } else { rng.below(3) as u8 };
+        let malformed_kind = if api == Api::Json { 1 + rng.below(5) as u8 } else { rng.below(6) as u8 };
         cases.push(CaseSpec { kind, m, script, api, malformed_kind });
         sampled += 1;
     }
